@@ -17,6 +17,7 @@ Alpha == <<
   RecvF(1, 255, 3, 22, P1, "rel", 1), RecvF(1, 255, 3, 22, P1, "rel", 2), RecvF(1, 255, 3, 22, P1, "rel", 3),
   RecvF(1, 255, 3, 32, PEmpty, "rel", 1), RecvF(1, 255, 3, 32, PEmpty, "rel", 2), RecvF(1, 255, 3, 32, PEmpty, "rel", 3),
   RecvF(2, 255, 3, 22, P1, "rel", 1), RecvF(2, 255, 3, 32, PEmpty, "rel", 1),
+  Recv_(0, 255, 3, 14, PEmpty),                                        \* the gateway restarts (gateway ready) while commands are parked
   Recv_(0, 255, 3, 2, P22),                                            \* the gateway reports (another) version while commands are parked
   Cycle_
 >>
